@@ -84,6 +84,84 @@ def _simple_value(v):
     return False
 
 
+def _transparent_try(t):
+    if not t.handlers or t.finalbody:
+        return False
+    assigned = {s.targets[0].id for s in t.body if isinstance(s, ast.Assign) and len(s.targets) == 1 and isinstance(s.targets[0], ast.Name)}
+    for h in t.handlers:
+        body = [s for s in h.body if not (isinstance(s, ast.Expr) and isinstance(s.value, ast.Constant))]
+        if body and isinstance(body[-1], ast.Raise) and all(not isinstance(s, (ast.If, ast.For, ast.While, ast.Try)) for s in body[:-1]):
+            continue
+        if body and all(isinstance(s, ast.Assign) and len(s.targets) == 1 and isinstance(s.targets[0], ast.Name)
+                        and s.targets[0].id in assigned for s in body):
+            continue
+        return False
+    return True
+
+
+def _top_split(text, sep):
+    """split on sep outside brackets and quotes"""
+    out, depth, cur, q, i = [], 0, [], None, 0
+    while i < len(text):
+        ch = text[i]
+        if q:
+            cur.append(ch)
+            if ch == "\\" and i + 1 < len(text):
+                cur.append(text[i + 1])
+                i += 1
+            elif ch == q:
+                q = None
+        elif ch in "'\"":
+            q = ch
+            cur.append(ch)
+        elif ch in "([{":
+            depth += 1
+            cur.append(ch)
+        elif ch in ")]}":
+            depth -= 1
+            cur.append(ch)
+        elif depth == 0 and text.startswith(sep, i):
+            out.append("".join(cur))
+            cur = []
+            i += len(sep) - 1
+        else:
+            cur.append(ch)
+        i += 1
+    out.append("".join(cur))
+    return out
+
+
+def fact_satisfied(expected, facts):
+    """an expected fact is enforced when it is present, or present with a guard that only ADDS alternatives (a | b where
+    the model has a): the action then happens in every case the model names"""
+    if expected in facts:
+        return True
+    if " => " not in expected:
+        return False
+    eg, ea = expected.rsplit(" => ", 1)
+    egs = _top_split(eg, " & ")
+    for f in facts:
+        if " => " not in f:
+            continue
+        fg, fa = f.rsplit(" => ", 1)
+        if fa != ea:
+            continue
+        fgs = _top_split(fg, " & ")
+        if len(fgs) != len(egs):
+            continue
+        rest = list(fgs)
+        ok = True
+        for e in egs:
+            hit = next((x for x in rest if x == e or e in [p.strip() for p in _top_split(x, " | ")]), None)
+            if hit is None:
+                ok = False
+                break
+            rest.remove(hit)
+        if ok:
+            return True
+    return False
+
+
 def summarize(func_node):
     """-> (facts:set[str], super_calls:[ast.Call])"""
     # single-assignment simple locals
@@ -110,6 +188,31 @@ def summarize(func_node):
                 if isinstance(x, ast.Name):
                     counts[x.id] = counts.get(x.id, 0) + 2
     env = {k: v for k, v in values.items() if counts.get(k) == 1}
+    # error-value idiom:  try: x = f(...)  except E as exc: x = [exc]   -- x is "f(...) or the failure"; both definitions are
+    # substituted as a disjunction so that the later `if x: raise` reads  f(...) | [..] => raise
+    for t in [n for n in walk_no_nested(func_node) if isinstance(n, ast.Try)]:
+        if not _transparent_try(t):
+            continue
+        in_body = {s.targets[0].id: s.value for s in t.body if isinstance(s, ast.Assign) and len(s.targets) == 1
+                   and isinstance(s.targets[0], ast.Name)}
+        for nme, v0 in in_body.items():
+            alts = [v0]
+            for h in t.handlers:
+                alts += [s.value for s in h.body if isinstance(s, ast.Assign) and len(s.targets) == 1
+                         and isinstance(s.targets[0], ast.Name) and s.targets[0].id == nme]
+            if counts.get(nme) == len(alts) and len(alts) > 1:
+                alts = sorted(alts, key=lambda a: (0 if a is v0 else 1, norm(a)))
+                e = clone(alts[0])
+                for a in alts[1:]:
+                    e = ast.BinOp(left=e, op=ast.BitOr(), right=clone(a))
+                ast.fix_missing_locations(e)
+                env[nme] = e
+    # substitute inside the substituted values too (x = f(y) with y itself a substituted local)
+    for _ in range(3):
+        for k in list(env):
+            t = _Subst({a: b for a, b in env.items() if a != k}).visit(clone(env[k]))
+            ast.fix_missing_locations(t)
+            env[k] = t
     msg_like = {k for k, v in values.items() if isinstance(v, ast.Constant) and isinstance(v.value, str)}
     facts = set()
     supers = []
@@ -168,7 +271,9 @@ def summarize(func_node):
             elif isinstance(s, ast.While):
                 walk(s.body, guards + ["while %s" % sub(s.test)])
             elif isinstance(s, ast.Try):
-                walk(s.body, guards + ["try"])
+                # a try whose handlers all preserve the failure (raise, or the error-value idiom) does not weaken what its
+                # body enforces: its body is summarised as unconditional code
+                walk(s.body, guards if _transparent_try(s) else guards + ["try"])
                 for h in s.handlers:
                     walk(h.body, guards + ["except %s" % (norm(h.type) if h.type is not None else "*")])
                 walk(s.orelse, guards)
